@@ -25,7 +25,7 @@ ASSUMPTIONS = [
 ]
 EVENTS = ["hit_cnt", "hit_cnt", "cnt_off", "cnt_on", "acc_1", "acc_2", "acc_3", "seq_1", "seq_2", "seq_3", "shot_on", "shot_off",
           "ach_enable", "ach_start", "ach_stop", "ach_complete", "ach_disable", "ach_reset", "pause_tim", "start_timr", "pause_timr",
-          "score_100", "score_100", "add_custom", "set_name", "start_gm2", "start_gm2", "stop_gm2", "q_1", "q_1", "q_2", "q_3",
+          "score_100", "score_100", "add_custom", "set_name", "start_gm2", "start_gm2", "stop_gm2", "start_gm3", "stop_gm3", "q_1", "q_1", "q_2", "q_3",
           "pause_q", "pause_q", "hit_sg1", "hit_sg2", "hit_sg3", "grp_rotate", "grp_rotate", "grp_rotate", "grp_rot_off"]
 op = st.one_of(
     st.tuples(st.just("ev"), st.sampled_from(EVENTS)).map(list),
@@ -39,16 +39,30 @@ op = st.one_of(
     st.just(["end_game"]),
     st.tuples(st.just("advance"), st.sampled_from([10, 60, 300, 2500])).map(list),
 )
-case_strategy = st.fixed_dictionaries({
+def _quest(t):
+    """Directed history: a restart_on_next_ball mode is started, carried over one or more ball ends, finished by its
+    player on a later ball - and two more balls follow (three balls per game)."""
+    players, who_stops, mid, tail = t
+    d = [["drain"]] * players
+    ops = [["ev", "start_gm3"]] + mid[:2] + d + [["ev", "hit_cnt"]] + d[:who_stops] + [["ev", "stop_gm3"]] + mid[2:] + d + [
+        ["advance", 60]] + d + tail
+    return {"players": players, "ops": ops}
+
+
+_general = st.fixed_dictionaries({
     "players": st.integers(1, 4),
     "ops": st.lists(op, min_size=6, max_size=70),
 })
+_quests = st.tuples(st.integers(1, 2), st.integers(0, 1), st.lists(op, max_size=4), st.lists(op, max_size=10)).map(_quest)
+case_strategy = st.sampled_from([0, 0, 0, 0, 1]).flatmap(lambda k: [_general, _quests][k])
 TRACKED = ["score", "pv_custom", "pv_name"]
 
 
 def plain(v):
     if hasattr(v, "value") and hasattr(v, "enabled") and hasattr(v, "completed"):
         return ("LBS", copy.deepcopy(v.value), bool(v.enabled), bool(v.completed))
+    if isinstance(v, list) and any(hasattr(x, "machine") for x in v):
+        return [getattr(x, "name", repr(x)) for x in v]       # e.g. restart_modes_on_next_ball: a list of modes
     if isinstance(v, (list, dict, set)):
         return copy.deepcopy(v)
     return v
@@ -172,6 +186,7 @@ def check(case):
             known.clear()
             frozen.clear()
             end_state.clear()
+            quest_at_end.clear()
             rig.case.start_game()
             rig.advance(0.15)
             for _ in range(case["players"] - 1):
@@ -189,6 +204,8 @@ def check(case):
             m.switch_controller.process_switch("s_start", 0, logical=True)
             rig.advance(0.05)
 
+        quest_at_end = {}
+
         def drain():
             g = m.game
             if g is None or g.balls_in_play <= 0:
@@ -196,6 +213,7 @@ def check(case):
             p = g.player
             pn = p.number
             end_state[pn] = (observe(), persisted(p), m.modes["gm2"].active)
+            quest_at_end[pn] = m.modes["gm3"].active
             had_extra = p.extra_balls > 0
             ball = p.ball
             rig.case.drain_all_balls() if False else None
@@ -210,6 +228,15 @@ def check(case):
             np_ = g.player
             if np_ is not None and np_.number in end_state and not vio:
                 exp_obs, exp_pers, gm2_was = end_state[np_.number]
+                # a restart_on_next_ball mode belongs to the player who was in it: running at their next ball iff it was
+                # running when their previous ball ended (a mode they finished stays finished)
+                if m.modes["gm3"].active != quest_at_end[np_.number]:
+                    v("restart-on-next-ball-mode:" + ("running" if m.modes["gm3"].active else "missing"),
+                      "player %d ball %d: mode gm3 (restart_on_next_ball) is %s but it was %s at the end of this player's "
+                      "previous ball" % (np_.number, np_.ball, "running" if m.modes["gm3"].active else "not running",
+                                         "running" if quest_at_end[np_.number] else "not running"))
+                if quest_at_end[np_.number]:
+                    classes.add("quest mode carried to the next ball")
                 got_pers = persisted(np_)
                 exp_m = dict(exp_pers)
                 # documented achievement mapping on the next ball
